@@ -9,7 +9,8 @@ from __future__ import annotations
 from .queries import ancestors
 
 CLASSES = ("uniform", "uniform", "same_base_two_worlds", "with_factual", "irrelevant_subscript", "reflexive_consistent",
-           "reflexive_inconsistent", "worlds_differ_irrelevantly", "contradictory_pair", "single")
+           "reflexive_inconsistent", "worlds_differ_irrelevantly", "contradictory_pair", "single", "observe_subscripts",
+           "observe_subscripts")
 
 
 def _conj(rng, gd, name=None, max_subs=2, world=None):
@@ -61,6 +62,22 @@ def random_event(rng, gd, cls=None, max_items=3):
             s = rng.random() < 0.3
             ev.append([y, [[x, s]], rng.random() < 0.5])
             ev.append([y, sorted([[x, s], [z, rng.random() < 0.5]]), rng.random() < 0.5])
+    elif cls == "observe_subscripts" and len(nodes) >= 2:
+        # Y under interventions on (preferably) its parents, plus the observed values of those variables in the
+        # factual world: equal to the setting (composition/merging applies) or different or absent
+        pm = {n: [u for u, v in gd["di"] if v == n] for n in nodes}
+        cands = [n for n in nodes if pm[n]] or nodes
+        y = rng.choice(cands)
+        pool = pm[y] if pm[y] and rng.random() < 0.8 else [v for v in nodes if v != y]
+        subs = sorted([v, rng.random() < 0.4] for v in rng.sample(pool, min(len(pool), rng.choice([1, 2, 2]))))
+        ev.append([y, subs, rng.random() < 0.4])
+        for v, s in subs:
+            r = rng.random()
+            if r < 0.55:
+                ev.append([v, [], s])
+            elif r < 0.8:
+                ev.append([v, [], not s])
+        n_items = max(n_items, len(ev))
     elif cls == "contradictory_pair":
         c = _conj(rng, gd)
         ev.append(c)
